@@ -219,7 +219,9 @@ impl Invalidates for VKey {
             0 => self.k == other.k,
             1 => self.k == other.k && other.v <= self.v,
             2 => false,
-            _ => true,
+            3 => true,
+            4 => other.k <= self.k,
+            _ => self.k % 2 == other.k % 2,
         }
     }
 }
